@@ -170,6 +170,29 @@ Theorem C07_linked_inverse_same_reparameterisation : link_follows_reparam = true
 Proof. exact link_follows_reparam_ok. Qed.
 Print Assumptions C07_linked_inverse_same_reparameterisation.
 
+(* 10. GenericSpatialTransform (spatial/generic.py) is a SequentialTransform whose member parameters may come
+       from a callable: its inverse() is the SequentialTransform inverse (theorem 7) and replaces the source of
+       the parameters only for link=True; without link the copy keeps the callable and its update() re-runs it
+       and writes the result into the members before the cascade -- read from the source on every run.  (The
+       numerical consequence -- the inverse keeps inverting after the callable's output changed or both were
+       re-conditioned -- is evaluated by the search on the implementation.) *)
+Theorem C07_generic_inverse_keeps_parameter_source : gen_generic_inverse_ok = true.
+Proof. exact generic_inverse_ok. Qed.
+Print Assumptions C07_generic_inverse_keeps_parameter_source.
+
+(* 11. Replacement (data_) instead of an in-place update of the forward parameters: followed by the inverse
+       for link=True (both parameter kinds) and, for link=False, when the parameters are an nn.Parameter
+       (shared _parameters dict); NOT followed for link=False with a fixed tensor -- the inverse keeps the
+       old tensor (last conjunct: it still applies -(1/8, 2/8)).  Witnesses on the executable instance; the
+       implementation agrees (correspondence histories contain data_ after inverse). *)
+Theorem C07_replacement_followed_through_shared_container :
+  call_gives (h_replace true false) 1%nat (qv (-3) 5) = true /\
+  call_gives (h_replace false true) 1%nat (qv (-3) 5) = true /\
+  call_gives (h_replace true true) 1%nat (qv (-3) 5) = true /\
+  call_gives (h_replace false false) 1%nat (qv (-1) (-2)) = true.
+Proof. exact replacement_followed_through_shared_container. Qed.
+Print Assumptions C07_replacement_followed_through_shared_container.
+
 (* non-vacuity: a proper rotation / invertible matrices satisfy the hypotheses; linked and unlinked
    inverses follow an in-place update on the executable instance *)
 Example C07_nonvacuous :
